@@ -38,6 +38,7 @@ import Proofs.FitTail
 import Proofs.InsertAtValid
 import Proofs.FitOpen
 import Proofs.FitNoRaise
+import Proofs.FitNorm
 import Proofs.JoinSuccess
 import Proofs.Placement
 import Props.C01
@@ -2403,5 +2404,67 @@ theorem replace_valid_of_inv_of_norm (S : Schema) (hdet : detB S = true) (hfill 
   simp only [Step.sliceOf, Option.some.injEq] at hs2
   subst hs2
   exact hsn _ _ _ _ _ _ _ rfl
+
+/-! ### the emitted slice is in normal form -/
+
+/-- **`fit_emits_norm`** — the slice of every step `replace_step` emits is in normal form (`fnorm`: no empty text node,
+    no two adjacent text nodes with equal marks, at every level) **whenever the request slice's content is**.  No
+    hypothesis about the schema, the document, the positions or the open depths.  (`placed` grows through
+    `add_to_fragment` only, which appends with `Fragment.append`; the children of the request slice `place_nodes` takes
+    have their marks filtered by `allowed_marks` — which can make two adjacent text nodes equal-marked — but go through
+    `Fragment.from_` (`from_array` joins them); fillers, the empty copies of the ancestors of `from` and the re-opened
+    ancestors of `to` hold no text node at all.  Invariant `NormInv` of the loop, Proofs/FitNorm.lean.) -/
+theorem fit_emits_norm (S : Schema) (doc : Node) (f t : Nat) (sl : Slice) (hsl : fnorm sl.content = true)
+    (st : Step) (h : replaceStep S doc f t sl = .ok (some st)) :
+    ∀ sl', st.sliceOf = some sl' → fnorm sl'.content = true :=
+  replaceStep_norm S doc f t sl hsl st h
+
+/-- the invariant is an invariant of one iteration of the loop of `fit` -/
+theorem normInv_step (S : Schema) (st st' : FitState) (h : fitStep S st = .ok st') (hi : NormInv st) : NormInv st' :=
+  fitStep_norm S st st' h hi
+
+/-- **`insertInline_emits_norm`** — the instance for the class `Slice.inlineLeaves` (typing: closed slices of leaf and
+    text nodes), the normal form of the typed content the only hypothesis -/
+theorem insertInline_emits_norm (S : Schema) (doc : Node) (f t : Nat) (sl : Slice)
+    (_hsl : sl.inlineLeaves S = true) (hn : fnorm sl.content = true)
+    (st : Step) (h : replaceStep S doc f t sl = .ok (some st)) :
+    ∀ sl', st.sliceOf = some sl' → fnorm sl'.content = true :=
+  fit_emits_norm S doc f t sl hn st h
+
+/-- a non-trivial instance: filtering the marks makes two adjacent text nodes equal-marked; not needed for the
+    theorem, the hypothesis `fnorm` on a slice with two differently marked adjacent text nodes -/
+example : fnorm [Node.text [97] [⟨0, []⟩], Node.text [98] []] = true := by decide
+
+/-- **`insertInline_valid`** — `insertInline_valid_of_norm` with its residual discharged (`fit_emits_norm`): typing
+    into a valid document in normal form yields a valid document and keeps everything outside the range; the
+    hypotheses are about the schema, the document and the typed slice only -/
+theorem insertInline_valid (S : Schema) (hdet : detB S = true) (hfill : S.fillersOKB = true)
+    (hwrap : S.wrapOKB = true) (hlab : S.labelsOKB = true) (hleaf : PM.FromDom.leafOkB S = true)
+    (hts : textStableC S = true) (hcl : S.closableB = true) (hst : PM.FromDom.textStableB S = true)
+    (doc doc' : Node) (f t : Nat) (sl : Slice)
+    (hsl : sl.inlineLeaves S = true) (hslv : sl.closedValid S = true) (hsn : fnorm sl.content = true)
+    (hv : C01.Valid S doc)
+    (hn : fnorm doc.kids = true) (hattrs : S.nodeAttrsOK doc = true) (hft : f ≤ t) (st : Step)
+    (h : replaceStep S doc f t sl = .ok (some st))
+    (ha : S.apply st doc = .ok doc') :
+    C01.Valid S doc' ∧ Kept (ftoks doc.kids) (ftoks doc'.kids) f t (textUnits (sliceToks' sl)) :=
+  insertInline_valid_of_norm S hdet hfill hwrap hlab hleaf hts hcl hst doc doc' f t sl hsl hslv hv hn hattrs hft st h
+    (fun _ _ _ _ sl' _ _ e => fit_emits_norm S doc f t sl hsn st h sl' (by rw [e]; rfl)) ha
+
+/-- **`replace_valid_of_inv`** — `replace_valid_of_inv_of_norm` with its residual discharged (`fit_emits_norm`): the
+    request slice in normal form instead of a hypothesis about the emitted step -/
+theorem replace_valid_of_inv (S : Schema) (hdet : detB S = true) (hfill : S.fillersOKB = true)
+    (hleaf : PM.FromDom.leafOkB S = true) (hts : textStableC S = true) (hcl : S.closableB = true)
+    (hst : PM.FromDom.textStableB S = true)
+    (doc doc' : Node) (f t : Nat) (sl : Slice) (hwf : sl.wf = true)
+    (hslv : openValid S sl.openStart sl.openEnd sl.content = true) (hsn : fnorm sl.content = true)
+    (hv : C01.Valid S doc)
+    (hn : fnorm doc.kids = true) (hattrs : S.nodeAttrsOK doc = true) (hft : f ≤ t) (st : Step)
+    (h : replaceStep S doc f t sl = .ok (some st))
+    (hend : fitEndInv S doc f t sl ≠ some false)
+    (ha : S.apply st doc = .ok doc') :
+    C01.Valid S doc' ∧ Kept (ftoks doc.kids) (ftoks doc'.kids) f t (textUnits (sliceToks' sl)) :=
+  replace_valid_of_inv_of_norm S hdet hfill hleaf hts hcl hst doc doc' f t sl hwf hslv hv hn hattrs hft st h hend
+    (fun _ _ _ _ sl' _ _ e => fit_emits_norm S doc f t sl hsn st h sl' (by rw [e]; rfl)) ha
 
 end PM.C11
